@@ -3,7 +3,7 @@
 Each obligation builds an in-memory source (symxr dataset / arrays) whose *contents and dialect* are symbolic, runs the real
 reader through the public constructors of the cloned Grid (Grid.from_dataset incl. format sniffing, Grid.from_topology,
 Grid.from_face_vertices) and compares with a reference decoding written from the format specifications.
-Outside: file bytes -> dataset (xr.open_dataset, geopandas) - C libraries."""
+Outside: file bytes -> dataset (xr.open_dataset, geopandas) - C libraries; GEOS-CS, ICON and shapefile readers."""
 import z3
 import numpy as np
 from symex import core as sc, symnp, symxr
@@ -325,6 +325,86 @@ def make_scrip(oid, lon_range, tiers=("quick", "thorough"), sizes=None, cost=5):
                       functions=["Grid.from_dataset", "io.utils._parse_grid_type", "_scrip._read_scrip", "_scrip._to_ugrid", "connectivity._replace_fill_values",
                                  "coordinates._set_desired_longitude_range"],
                       bounds="2 cells <= 4 corners (all padding layouts: shorter cells repeat their last corner), 6 node positions in longitude bands ordered unlike the node numbering, two nodes on one meridian; cell areas arbitrary positive",
+                      tiers=tiers, timeout_s=3000, query_timeout_s=1500, cost=cost)
+
+
+def make_face_vertices(oid, tiers=("quick", "thorough"), sizes=None, cost=5):
+    """Grid.from_face_vertices: per-face vertex coordinates, shorter faces padded with (FILL, FILL) rows"""
+    n_face, n_max, n_node = 2, 4, 6
+    ORDER = [3, 0, 5, 1, 4, 2]
+
+    def setup(ctx):
+        fn, nf = C.sym_face_table(ctx, n_face, n_max, n_node, sizes=sizes)
+        lon = _reals(ctx, "lon", n_node, -180, 180)
+        lat = _reals(ctx, "lat", n_node, -90, 90)
+        for r, i in enumerate(ORDER):
+            if i != 4:
+                ctx.solver.add(lon[i] >= -170 + 50 * r, lon[i] <= -130 + 50 * r)
+        ctx.solver.add(lon[4] == lon[1], lat[4] != lat[1])
+        return fn, nf, lon, lat
+
+    def _sel(arr, idx):
+        out = arr[-1]
+        for i in range(len(arr) - 2, -1, -1):
+            out = z3.If(idx == i, arr[i], out)
+        return out
+
+    def run(ctx, inp):
+        fn, nf, lon, lat = inp
+        old, symnp.UNIQUE_MODE[0] = symnp.UNIQUE_MODE[0], "rank"
+        try:
+            vals = []
+            for f in range(n_face):
+                for j in range(n_max):
+                    vals.append(mk(z3.If(j < nf[f], _sel(lon, fn[f][j]), z3.RealVal(F))))
+                    vals.append(mk(z3.If(j < nf[f], _sel(lat, fn[f][j]), z3.RealVal(F))))
+            fv = symnp.SArr.new(vals, (n_face, n_max, 2), None, symnp.float64)
+            Grid = world().get("uxarray.grid.grid", "Grid")
+            g = Grid.from_face_vertices(fv, latlon=True)
+            got = g.face_node_connectivity.values.raw()
+            ctx.prove("table shape", got.shape_cap == (n_face, n_max) and _int_dtype(g.face_node_connectivity.values))
+            if got.shape_cap != (n_face, n_max):
+                return
+            glon, glat = [_zr(v) for v in g.node_lon.values.raw().flat_list()], [_zr(v) for v in g.node_lat.values.raw().flat_list()]
+            nn = sc.z(g.n_node)
+            for f in range(n_face):
+                cl = []
+                for j in range(n_max):
+                    idx = sc.z(got[f, j])
+                    ok = z3.And(idx >= 0, idx < nn, _lon_ok(_sel(glon, idx), _sel(lon, fn[f][j])), _sel(glat, idx) == _sel(lat, fn[f][j]))
+                    cl.append(z3.If(j < nf[f], ok, idx == F))
+                ctx.prove(f"face {f}: its vertices in order (positions), padding rows -> fill at the end", z3.And(*cl))
+        finally:
+            symnp.UNIQUE_MODE[0] = old
+
+    def replay(v):
+        import uxarray as ux
+        rows, lon, lat = v["fn"], v["lon"], v["lat"]
+        fv = np.full((n_face, n_max, 2), float(F))
+        for f, r in enumerate(rows):
+            for j, i in enumerate(x for x in r if x != F):
+                fv[f, j] = (lon[i], lat[i])
+        try:
+            g = ux.Grid.from_face_vertices(fv, latlon=True)
+            fnr = g.face_node_connectivity.values
+            if fnr.dtype != np.intp:
+                return f"face_node_connectivity dtype {fnr.dtype}"
+            for f, r in enumerate(rows):
+                ids = [x for x in r if x != F]
+                got = [int(x) for x in fnr[f]]
+                if any(x != F for x in got[len(ids):]) or any(x == F for x in got[:len(ids)]):
+                    return f"from_face_vertices face {f} with vertices {fv[f].tolist()} decoded as row {got}: padding is not 'fill values at the end only'"
+                for j, i in enumerate(ids):
+                    gl, gt = float(g.node_lon.values[got[j]]), float(g.node_lat.values[got[j]])
+                    if abs(((gl - lon[i] + 180) % 360) - 180) > 1e-9 or abs(gt - lat[i]) > 1e-9:
+                        return f"from_face_vertices face {f} vertex {j}: decoded position ({gl},{gt}), the source has ({lon[i]},{lat[i]})"
+        except Exception as e:
+            return f"from_face_vertices raised {type(e).__name__}: {str(e)[:150]}"
+        return None
+
+    return Obligation(oid, "face-vertex arrays -> Grid", setup, run, replay, exact=True,
+                      functions=["Grid.from_face_vertices", "_vertices._read_face_vertices", "Grid.__init__"],
+                      bounds="2 faces <= 4 vertices (padding rows of fill values), 6 vertex positions in longitude bands ordered unlike the numbering, two vertices on one meridian",
                       tiers=tiers, timeout_s=3000, query_timeout_s=1500, cost=cost)
 
 
@@ -762,6 +842,7 @@ def obligations(tier):
     obs += [make_mpas("C01.mpas.primal", False), make_mpas("C01.mpas.dual", True)]
     obs += [make_exodus("C01.exodus.coord", "coord"), make_exodus("C01.exodus.coordxyz", "coordxyz"),
             make_exodus_blocks("C01.exodus.blocks.tri_quad", False), make_exodus_blocks("C01.exodus.blocks.quad_tri", True),
+            make_face_vertices("C01.vertices.q4t3", sizes=[4, 3]), make_face_vertices("C01.vertices", tiers=("thorough",), cost=40),
             make_scrip("C01.scrip.180.q4t3", "180", sizes=[4, 3]), make_scrip("C01.scrip.360.t3q4", "360", sizes=[3, 4], tiers=("thorough",), cost=30),
             make_scrip("C01.scrip.180", "180", tiers=("thorough",), cost=40), make_scrip("C01.scrip.360", "360", tiers=("thorough",), cost=100)]
     obs += [make_fill(f"C01.fill.{dt}.{fk}", dt, fk) for dt, fk in (("int64", "value"), ("int32", "value"), ("float64", "value"), ("int32", "none"))]
